@@ -84,9 +84,9 @@ class Mapper:
         self.woken = {}
         self.q = {}
         self.peer_at = {}   # (inst, j) -> peer port of the stream just accepted
-        self.conn_ix = {}   # (inst, peer) -> index among the instance's connection tasks
+        self.pending = []   # (inst, peer, index among the instance's connection tasks): counted, task not yet seen
         self.nconn = {}
-        self.conn_tid = {}  # (inst, tid) -> peer
+        self.conn_tid = {}  # (inst, tid) -> index among the instance's connection tasks
         self.cpc = {}       # (inst, c) -> mirror pc of the connection task
         self.fin = set()
         self.started = set()
@@ -135,7 +135,13 @@ class Mapper:
                 continue
             if name in ("h.executed", "ex.bind", "sh.enter", "co.start", "ct.start"):
                 if name == "co.start":
-                    self.conn_tid[(i, tid)] = val
+                    # the task of the oldest not yet started connection with this peer port (the same client port may be
+                    # connected to two ports at once; two such tasks are in the same state, so either choice is a trace)
+                    for m, (ii, peer, ix) in enumerate(self.pending):
+                        if ii == i and peer == val:
+                            self.conn_tid[(i, tid)] = ix
+                            del self.pending[m]
+                            break
                 continue
             if i == 99:
                 continue
@@ -201,9 +207,6 @@ class Mapper:
                 k = (i, j)
                 if self.lpc.get(k) == LCOUNTED:
                     self.emit(n, hsd(i, L_STEP, j), LTOP)
-                    peer = self.peer_at.get(k)
-                    self.conn_ix[(i, peer)] = self.nconn.get(i, 0)
-                    self.nconn[i] = self.nconn.get(i, 0) + 1
                 self.lpc[k] = LTOP
                 continue
             if (i, tid) in self.lst and (name.startswith("ap.") or name.startswith("al.") or name.startswith("rm.")):
@@ -226,6 +229,11 @@ class Mapper:
                         self.slot[k] = True
                     if name == "al.shut":
                         self.slot[k] = False
+                    if name == "al.counted":
+                        # the task is spawned, and gets its index among the instance's connection tasks, in the segment that
+                        # ends at the next al.top; no other accept loop can be between its al.counted and al.top
+                        self.pending.append((i, val, self.nconn.get(i, 0)))
+                        self.nconn[i] = self.nconn.get(i, 0) + 1
                     self.emit(n, hsd(i, L_STEP, j), new)
                     self.lpc[k] = new
                 elif name == "al.got":
@@ -247,11 +255,7 @@ class Mapper:
                 continue
             # ---- connection tasks ----
             if (i, tid) in self.conn_tid and name.startswith("rm."):
-                peer = self.conn_tid[(i, tid)]
-                c = self.conn_ix.get((i, peer))
-                if c is None:
-                    self.emit(n, hsd(i, C_STEP, 999), 0)   # a task the accept loop never spawned: rejected by the model
-                    continue
+                c = self.conn_tid[(i, tid)]
                 new = {"rm.enter": 3, "rm.dec": 4, "rm.flag": 5, "rm.exit": 6}[name]
                 self.emit(n, hsd(i, C_STEP, c), new)
                 continue
@@ -325,7 +329,7 @@ def analyse(c, i):
     refused = [e for e in r["exchanges"] if e[5] == 1]
     bad_acc = [e for e in r["exchanges"] if e[5] != 0 and e[5] != 1 and accepted(e)]
     lost = [e for e in r["exchanges"] if e[5] in (4, 5)]
-    kq = [e for e in r["exchanges"] if e[5] in (2, 3) and not accepted(e)]
+    kq = [e for e in r["exchanges"] if e[5] in (2, 3, 6) and not accepted(e)]
     an.update(refused=refused, bad_acc=bad_acc, lost=lost, kernel_reset=len(kq), total=len(r["exchanges"]),
               complete=sum(1 for e in r["exchanges"] if e[5] == 0),
               slow_complete=sum(1 for e in r["exchanges"] if e[5] == 0 and e[0] == 1))
@@ -383,7 +387,8 @@ def extra_oracle(c, i):
                    "%s, sent at %d us)" % (len(an["bad_acc"]), e[5], e[1], "slow handler" if e[0] else "fast", e[3]))
     if an["lost"]:
         e = an["lost"][0]
-        why.append("%d request(s) neither answered nor reset within the time limit (result %d, client port %d)" % (len(an["lost"]), e[5], e[1]))
+        why.append("%d request(s) neither answered nor reset within the time limit, or connect failed with an unexpected error "
+                   "(result %d, client port / errno %d)" % (len(an["lost"]), e[5], e[1]))
     if an["gap"]:
         why.append("hook log: " + an["gap"])
     if an["order"]:
